@@ -1,0 +1,9 @@
+//go:build verif
+
+// Exports of unexported workers for the verification harness under /verif.
+package bech32
+
+func VerifPolymod(values []int) int                    { return bech32Polymod(values) }
+func VerifHrpExpand(hrp string) []int                  { return bech32HrpExpand(hrp) }
+func VerifChecksum(hrp string, data []byte) []byte     { return bech32Checksum(hrp, data) }
+func VerifVerifyChecksum(hrp string, data []byte) bool { return bech32VerifyChecksum(hrp, data) }
